@@ -1,10 +1,14 @@
 #!/bin/bash
 # regression over all archived seeded changes: each must be caught by the quick check named in its meta.json
+# usage: tools/seedall.sh [<log to resume>]   (entries already in the log are skipped)
 cd /verif
-out=notes/seedall-$(date +%H%M).log
+out=${1:-notes/seedall-$(date +%H%M).log}
+touch "$out"
 for d in seeded/C*-*; do
+  grep -q "^$d " "$out" && continue
   chk=$(python3 -c "import json;print(json.load(open('$d/meta.json'))['detected_by']['check'])")
   r=$(tools/seedtest.sh "$PWD/$d" $chk 2>&1 | head -1)
   echo "$d $r" | tee -a $out
 done
+sed -i '/^caught:/d' "$out"
 echo "caught: $(grep -c CAUGHT $out) / $(ls -d seeded/C*-* | wc -l)" | tee -a $out
